@@ -5,6 +5,7 @@
 -/
 import Model.Proto.SurveyorLemmas
 import Model.Proto.SurveyorGone
+import Model.Proto.SurveyorOrder
 import Model.Proto.MeshLemmas
 namespace Props.C07
 open Model Model.Proto
@@ -93,6 +94,12 @@ theorem cancel_makes_gone (s : Surveyor.State) (id : Nat) (e : String) :
 theorem delivered_for_names_the_survey (s : Surveyor.State) (h : Surveyor.Reach s) :
     s.delivered.map (·.2.2) = s.deliveredFor.map Surveyor.enc :=
   Surveyor.reach_tied s h
+
+/-- the sending side, over every history: for every respondent, the surveys handed to its pipe — completed, in progress,
+    queued — are, in order, part of what was offered to that pipe: each survey goes to a respondent at most once -/
+theorem per_respondent_order (s : Surveyor.State) (h : Surveyor.Reach s) :
+    ∀ p ∈ s.pipes, (p.sent ++ p.inflight.toList ++ p.q).Sublist p.offered :=
+  Surveyor.per_respondent_order s h
 
 example : Surveyor.Inv Surveyor.init := by simp [Surveyor.Inv, Surveyor.init]
 
